@@ -1681,8 +1681,10 @@ static vbi_bool vbi_proxyd_token_grant( PROXY_CLNT * req )
          req->chn_state.token_state = REQ_TOKEN_GRANTED;
          break;
       case REQ_TOKEN_RELEASE:
-         /* reclaim already sent -> must re-assign token */
-         req->chn_state.token_state = REQ_TOKEN_GRANT;
+         /* reclaim already sent: the client has the token until it confirms or returns it.
+         ** State GRANT would tell the branch above that no grant was sent yet, i.e. that the
+         ** token is free for any other client. */
+         token_free = FALSE;
          break;
       case REQ_TOKEN_GRANTED:
       case REQ_TOKEN_RETURNED:
